@@ -142,6 +142,11 @@ func VerifC01_Cblas64Vector() {
 	r := verifChoose("routine", 0, 9)
 	n := verifChoose("n", 0, verifParam("wn", 2)+1)
 	slack := verifChoose("slack", 0, 1)
+	if r == 5 && n > 1 {
+		// Nrm2: n <= 1. The scaled sum of squares is executed twice on symbolic data; deciding the
+		// branches of the second execution costs minutes of solver time from n == 2 on.
+		return
+	}
 	incX, incY := 1, 1
 	if r >= 5 { // Nrm2, Asum, Iamax, Scal, Dscal: the wrappers panic for a negative increment
 		incX = verifChoose("incX", 1, 2)
